@@ -19,6 +19,7 @@ func (pass *RenameObject) Process(schemas []*ast.Schema) ([]*ast.Schema, error) 
 		OnRef:         pass.processRef,
 		OnConstantRef: pass.processConstantRef,
 		OnDisjunction: pass.processDisjunction,
+		OnStruct:      pass.processStruct,
 	}
 
 	newSchemas, err := visitor.VisitSchemas(schemas)
@@ -72,11 +73,19 @@ func (pass *RenameObject) processConstantRef(_ *Visitor, _ *ast.Schema, def ast.
 }
 
 func (pass *RenameObject) processDisjunction(visitor *Visitor, schema *ast.Schema, def ast.Type) (ast.Type, error) {
+	if err := pass.renameInDisjunction(visitor, schema, def.Disjunction); err != nil {
+		return ast.Type{}, err
+	}
+
+	return def, nil
+}
+
+func (pass *RenameObject) renameInDisjunction(visitor *Visitor, schema *ast.Schema, disjunction *ast.DisjunctionType) error {
 	// discriminator mappings designate the branches of the disjunction by name:
 	// the package of an entry is the package of the branch it designates.
-	for discriminator, typeName := range def.Disjunction.DiscriminatorMapping {
+	for discriminator, typeName := range disjunction.DiscriminatorMapping {
 		designated := ast.RefType{ReferredPkg: schema.Package, ReferredType: typeName}
-		for _, branch := range def.Disjunction.Branches {
+		for _, branch := range disjunction.Branches {
 			if branch.IsRef() && branch.Ref.ReferredType == typeName {
 				designated = branch.AsRef()
 				break
@@ -84,13 +93,35 @@ func (pass *RenameObject) processDisjunction(visitor *Visitor, schema *ast.Schem
 		}
 
 		if pass.From.MatchesRef(designated) {
-			def.Disjunction.DiscriminatorMapping[discriminator] = pass.To
+			disjunction.DiscriminatorMapping[discriminator] = pass.To
 		}
 	}
 
 	var err error
-	for i, branch := range def.Disjunction.Branches {
-		def.Disjunction.Branches[i], err = visitor.VisitType(schema, branch)
+	for i, branch := range disjunction.Branches {
+		disjunction.Branches[i], err = visitor.VisitType(schema, branch)
+		if err != nil {
+			return err
+		}
+	}
+
+	return nil
+}
+
+// processStruct also renames what a struct generated from a disjunction keeps of
+// it in its hints: the discriminator mapping the unmarshallers are generated from.
+func (pass *RenameObject) processStruct(visitor *Visitor, schema *ast.Schema, def ast.Type) (ast.Type, error) {
+	// hints can be set by users: the value isn't necessarily a disjunction.
+	// It goes first: its mapping designates the branches by their current name.
+	if disjunction, ok := def.Hints[ast.HintDiscriminatedDisjunctionOfRefs].(ast.DisjunctionType); ok {
+		if err := pass.renameInDisjunction(visitor, schema, &disjunction); err != nil {
+			return ast.Type{}, err
+		}
+	}
+
+	var err error
+	for i, field := range def.Struct.Fields {
+		def.Struct.Fields[i], err = visitor.VisitStructField(schema, field)
 		if err != nil {
 			return ast.Type{}, err
 		}
